@@ -572,6 +572,61 @@ func checkC13(e *Engine, r *Report) {
 				ret, ok := in.(*ssa.Return)
 				return ok && e.ClassifyReturn(ret) == retNilErr
 			}})
+			// the apply step configures everything from the configuration it is GIVEN: what reaches Policy.Reconfigure (and every
+			// other consumer inside the closure) derives from the closure's own parameter, never from a captured variable
+			{
+				polRec := e.FuncObj(pkgPolicy, "Policy.Reconfigure")
+				var fromParam func(v ssa.Value, d int) (param, free bool)
+				fromParam = func(v ssa.Value, d int) (bool, bool) {
+					if d > 8 {
+						return false, false
+					}
+					switch x := v.(type) {
+					case *ssa.Parameter:
+						return x.Parent() == apply, false
+					case *ssa.FreeVar:
+						return false, true
+					case *ssa.UnOp:
+						if al, ok := x.X.(*ssa.Alloc); ok && x.Op == token.MUL {
+							p, f := false, false
+							for _, st := range reachingStores(al, x) {
+								p2, f2 := fromParam(st.Val, d+1)
+								p, f = p || p2, f || f2
+							}
+							return p, f
+						}
+						return fromParam(x.X, d+1)
+					case *ssa.Call:
+						a := callArgs(x)
+						if len(a) > 0 {
+							return fromParam(a[0], d+1)
+						}
+					case *ssa.MakeInterface:
+						return fromParam(x.X, d+1)
+					case *ssa.ChangeInterface:
+						return fromParam(x.X, d+1)
+					case *ssa.ChangeType:
+						return fromParam(x.X, d+1)
+					case *ssa.Phi:
+						p, f := false, false
+						for _, ed := range x.Edges {
+							p2, f2 := fromParam(ed, d+1)
+							p, f = p || p2, f || f2
+						}
+						return p, f
+					}
+					return false, false
+				}
+				nRec := 0
+				for _, c := range callsToObj(apply, polRec) {
+					nRec++
+					a := callArgs(c)
+					fp, fr := fromParam(a[len(a)-1], 0)
+					r.Check("R12:rm-apply-uses-its-argument", "R12 rollback", "the apply step hands the policy the configuration it was called with (so the revert really re-applies the previous configuration)", e.InstrPos(c), apply, fp && !fr,
+						map[bool]string{true: "the configuration handed to Policy.Reconfigure comes from a captured variable, not from the closure's parameter", false: ""}[fr || !fp], true)
+				}
+				r.MinInstances("Policy.Reconfigure calls in the apply step", nRec, 1)
+			}
 			r.Check("R12:rm-failure-reported", "R12 rollback", "a failed configuration update is reported to the agent as an error", e.Pos(rec.Pos()), rec, p == nil, e.pathString(p), true)
 		}
 	}
